@@ -1003,3 +1003,119 @@ func TestGovcReplay(t *testing.T) {
 		},
 	})
 }
+
+func init() {
+	harnesses = append(harnesses, &harness{
+		name:      "dubbo/dubbothrift body replacement replay (decode, SetData with a new buffer, encode)",
+		modelFree: true,
+		match: func(o *Obligation) bool {
+			return (strings.Contains(o.Func, "xprotocol/dubbo.") || strings.Contains(o.Func, "xprotocol/dubbothrift.")) &&
+				(strings.Contains(o.Func, "SetData") || strings.Contains(o.Func, "encodeFrame"))
+		},
+		run: func(eng *Engine, o *Obligation) *ReplayOutcome {
+			pkg, sample := "dubbo", `[]byte{0xda, 0xbb, 0x02, 20, 0, 0, 0, 0, 0, 0, 0, 7, 0, 0, 0, 4, 'a', 'b', 'c', 'd'}`
+			marker := `[]byte("abcd")`
+			if strings.Contains(o.Func, "dubbothrift") {
+				pkg = "dubbothrift"
+				sample = `[]byte{0, 0, 0, 67, 218, 188, 0, 0, 0, 67, 0, 45, 1, 0, 0, 0, 24, 99, 111, 109, 46, 112, 107, 103, 46, 116, 101, 115, 116, 46, 84, 101, 115, 116, 83, 101, 114, 118, 105, 99, 101, 0, 0, 0, 0, 0, 0, 0, 1, 128, 1, 0, 1, 0, 0, 0, 10, 116, 101, 115, 116, 77, 101, 116, 104, 111, 100, 0, 0, 0, 1}`
+				marker = `[]byte("testMethod")`
+			}
+			src := fmt.Sprintf(`package %s
+
+import (
+	"bytes"
+	"context"
+	"fmt"
+	"testing"
+
+	"mosn.io/pkg/buffer"
+	"mosn.io/pkg/variable"
+)
+
+// The failed obligation says: after the body of a decoded frame has been replaced, the encoder may still take
+// the fast path and send the received raw frame. Replay: decode a valid frame, SetData(new buffer), encode.
+func TestGovcReplay(t *testing.T) {
+	raw := %s
+	ctx := variable.NewVariableContext(context.Background())
+	cmd, err := decodeFrame(ctx, buffer.NewIoBufferBytes(append([]byte{}, raw...)))
+	if err != nil {
+		fmt.Println("REPLAY-NOT-REPRODUCED decode failed:", err)
+		return
+	}
+	f := cmd.(*Frame)
+	f.SetData(buffer.NewIoBufferString("GOVC-REPLACED-BODY"))
+	out, err := encodeFrame(ctx, f)
+	if err != nil {
+		fmt.Println("REPLAY-NOT-REPRODUCED encode refused:", err)
+		return
+	}
+	if bytes.Contains(out.Bytes(), %s) || !bytes.Contains(out.Bytes(), []byte("GOVC-REPLACED-BODY")) {
+		fmt.Printf("REPLAY-CONFIRMED the body installed by SetData is dropped, the received frame is re-sent: %%q\n", out.Bytes())
+		return
+	}
+	fmt.Println("REPLAY-NOT-REPRODUCED")
+}
+`, pkg, sample, marker)
+			out, _ := runOverlayTest("pkg/protocol/xprotocol/"+pkg, src, "^TestGovcReplay$")
+			return outcomeFromOutput(src, out)
+		},
+	})
+	harnesses = append(harnesses, &harness{
+		name:      "decoded frame vs. reused read buffer replay (decode from a connection-style buffer, next read overwrites it, encode)",
+		modelFree: true,
+		match: func(o *Obligation) bool {
+			return strings.Contains(o.Func, "xprotocol/dubbothrift.decodeFrame") || strings.Contains(o.Func, "xprotocol/dubbo.decodeFrame")
+		},
+		run: func(eng *Engine, o *Obligation) *ReplayOutcome {
+			pkg, sample := "dubbo", `[]byte{0xda, 0xbb, 0x02, 20, 0, 0, 0, 0, 0, 0, 0, 7, 0, 0, 0, 4, 'a', 'b', 'c', 'd'}`
+			if strings.Contains(o.Func, "dubbothrift") {
+				pkg = "dubbothrift"
+				sample = `[]byte{0, 0, 0, 67, 218, 188, 0, 0, 0, 67, 0, 45, 1, 0, 0, 0, 24, 99, 111, 109, 46, 112, 107, 103, 46, 116, 101, 115, 116, 46, 84, 101, 115, 116, 83, 101, 114, 118, 105, 99, 101, 0, 0, 0, 0, 0, 0, 0, 1, 128, 1, 0, 1, 0, 0, 0, 10, 116, 101, 115, 116, 77, 101, 116, 104, 111, 100, 0, 0, 0, 1}`
+			}
+			src := fmt.Sprintf(`package %s
+
+import (
+	"bytes"
+	"context"
+	"fmt"
+	"testing"
+
+	"mosn.io/pkg/buffer"
+	"mosn.io/pkg/variable"
+)
+
+// The failed obligation says: the decoded frame may keep a window into the buffer it was decoded from.
+// Replay as the connection does it: the read buffer receives the frame, the decoder drains it, the next
+// read (ReadOnce) reuses the buffer, and only then is the first frame encoded for forwarding.
+func TestGovcReplay(t *testing.T) {
+	frame1 := %s
+	ctx := variable.NewVariableContext(context.Background())
+	rb := buffer.NewIoBuffer(1024)
+	rb.Write(frame1)
+	cmd, err := decodeFrame(ctx, rb)
+	if err != nil {
+		fmt.Println("REPLAY-NOT-REPRODUCED decode failed:", err)
+		return
+	}
+	rb.ReadOnce(bytes.NewReader(bytes.Repeat([]byte{0xEE}, len(frame1))))
+	out, err := encodeFrame(ctx, cmd.(*Frame))
+	if err != nil {
+		fmt.Println("REPLAY-NOT-REPRODUCED encode refused:", err)
+		return
+	}
+	if !bytes.Equal(out.Bytes(), frame1) {
+		n := len(out.Bytes())
+		if n > 8 {
+			n = 8
+		}
+		fmt.Printf("REPLAY-CONFIRMED the forwarded frame changed after the read buffer was reused: first bytes now %% x\n", out.Bytes()[:n])
+		return
+	}
+	fmt.Println("REPLAY-NOT-REPRODUCED")
+}
+`, pkg, sample)
+			out, _ := runOverlayTest("pkg/protocol/xprotocol/"+pkg, src, "^TestGovcReplay$")
+			return outcomeFromOutput(src, out)
+		},
+	})
+}
